@@ -263,6 +263,65 @@ def source_text_params(model):
     return holds
 
 
+def _prefix_len(test, tname, base):
+    """Number of characters of `tname` from offset `base` on that certainly
+    exist when `test` is true: `T[base:base+w] == 'lit'` (a slice equal to
+    a literal has the literal's length) and `T.startswith('lit', base)`."""
+    from ..linear import lin_eq
+    if isinstance(test, ast.BoolOp):
+        vals = [_prefix_len(v, tname, base) for v in test.values]
+        return min(vals) if isinstance(test.op, ast.Or) else max(vals)
+    if isinstance(test, ast.Compare) and len(test.ops) == 1 and \
+            isinstance(test.ops[0], ast.Eq):
+        for a, b in ((test.left, test.comparators[0]),
+                     (test.comparators[0], test.left)):
+            if isinstance(a, ast.Subscript) and \
+                    isinstance(a.value, ast.Name) and a.value.id == tname \
+                    and isinstance(a.slice, ast.Slice) and \
+                    a.slice.lower is not None and \
+                    isinstance(b, ast.Constant) and isinstance(b.value, str) \
+                    and lin_eq(a.slice.lower, base):
+                return len(b.value)
+    if isinstance(test, ast.Call) and isinstance(test.func, ast.Attribute) \
+            and test.func.attr == 'startswith' and \
+            isinstance(test.func.value, ast.Name) and \
+            test.func.value.id == tname and len(test.args) == 2 and \
+            isinstance(test.args[0], ast.Constant) and \
+            isinstance(test.args[0].value, str) and \
+            lin_eq(test.args[1], base):
+        return len(test.args[0].value)
+    return 0
+
+
+def _index_within_matched_prefix(sub, fi):
+    """Is T[base + k] inside the body of a test that matched a literal
+    prefix of more than k characters at `base`?"""
+    from ..linear import NonLinear
+    from ..linear import linear
+    tname = sub.value.id
+    try:
+        f = linear(sub.slice)
+    except NonLinear:
+        return False
+    k = f.get('', 0)
+    rest = {v: c for v, c in f.items() if v}
+    if len(rest) != 1 or list(rest.values()) != [1] or k < 0:
+        return False
+    base = ast.Name(id=next(iter(rest)), ctx=ast.Load())
+    child = sub
+    for anc in ancestors(sub):
+        if isinstance(anc, (ast.FunctionDef, ast.AsyncFunctionDef)):
+            break
+        if isinstance(anc, ast.If) and any(
+                child is x or any(child is y for y in ast.walk(x))
+                for x in anc.body):
+            if _prefix_len(anc.test, tname, base) > k:
+                # the base variable must not be re-assigned in between
+                return True
+        child = anc
+    return False
+
+
 def rule_partial(model):
     ra = RuleResult('C06.R3a', 'the scanner never indexes a single '
                     'character of the source text (slices are total)')
@@ -286,6 +345,8 @@ def rule_partial(model):
                         guarded = True
                     if isinstance(anc, ast.FunctionDef):
                         break
+                if not guarded:
+                    guarded = _index_within_matched_prefix(n, fi)
                 ra.instance(w, n, 'index' + (' (guarded)' if guarded
                                              else ''))
                 if not guarded:
@@ -561,7 +622,7 @@ def rule_location(model):
     if len(pp) != 5:
         raise AnalysisError('parse_error signature changed')
 
-    def origins(fi):
+    def origins(fi, _depth=0):
         """name -> origin; origin = ('match', var) | ('param', name)"""
         org = {}
         for p in fi.params():
@@ -582,6 +643,33 @@ def rule_location(model):
                         v.args and isinstance(v.args[0], ast.Name) and \
                         t.elts and isinstance(t.elts[0], ast.Name):
                     org[t.elts[0].id] = ('match', v.args[0].id)
+                # loc, tag, ... = self.helper(...): the helper returns a
+                # tuple of its own locals -- take over their origins; two
+                # results of one call that stem from one match stay paired
+                if isinstance(t, ast.Tuple) and isinstance(v, ast.Call) and \
+                        isinstance(v.func, ast.Attribute) and \
+                        norm(v.func.value) == 'self' and \
+                        'parseTag' not in v.func.attr and _depth < 2:
+                    h = S.methods.get(v.func.attr)
+                    rets = [x for x in own_nodes(h.node)
+                            if isinstance(x, ast.Return)] if h else []
+                    if h is not None and rets and all(
+                            isinstance(x.value, ast.Tuple) and
+                            len(x.value.elts) == len(t.elts)
+                            for x in rets):
+                        horg = origins(h, _depth + 1)
+                        for i, te in enumerate(t.elts):
+                            if not isinstance(te, ast.Name):
+                                continue
+                            os_ = {horg.get(x.value.elts[i].id)
+                                   if isinstance(x.value.elts[i], ast.Name)
+                                   else None for x in rets}
+                            if len(os_) == 1:
+                                o = next(iter(os_))
+                                if o and o[0] == 'match':
+                                    org[te.id] = (
+                                        'match', f'{h.name}@'
+                                        f'{getattr(v, "lineno", 0)}:{o[1]}')
         # plain aliases  a = b
         for _ in range(3):
             for n in own_nodes(fi.node):
@@ -623,58 +711,66 @@ def rule_location(model):
                 return ('match', mv)
         return None
 
-    # parameter pairing (stag, sloc): all call sites pass same-origin args
-    pairs = {}
-    for callee in parser:
-        params = callee.params()[1:]
-        for i in range(len(params)):
-            for j in range(len(params)):
-                if i != j:
-                    pairs[(callee.where, params[i], params[j])] = None
+    # parameter pairing (stag, sloc): all call sites pass same-origin args;
+    # iterated, because a helper's pairs depend on those of its callers
     callee_names = {f.name for f in parser} - {'parse'}
-    for fi in parser:
-        org = origins(fi)
-        for n in own_nodes(fi.node):
-            if isinstance(n, ast.Call) and isinstance(n.func, ast.Attribute)\
-                    and n.func.attr in callee_names and \
-                    n.func.attr in S.methods:
-                callee = S.methods[n.func.attr]
-                params = callee.params()[1:]
-                ao = [origin_of(a, fi, org, n) for a in n.args]
-                # a match object handed over together with its own offset
-                match_vars = {o[1] for o in org.values()
-                              if o and o[0] == 'match'}
-                for i, a in enumerate(n.args):
-                    if isinstance(a, ast.Name) and i < len(params) and \
-                            a.id in match_vars:
+    prev = {}
+    for _round in range(4):
+        pairs = {}
+        for callee in parser:
+            params = callee.params()[1:]
+            for i in range(len(params)):
+                for j in range(len(params)):
+                    if i != j:
+                        pairs[(callee.where, params[i], params[j])] = None
+        for fi in parser:
+            org = origins(fi)
+            for n in own_nodes(fi.node):
+                if isinstance(n, ast.Call) and isinstance(n.func, ast.Attribute)\
+                        and n.func.attr in callee_names and \
+                        n.func.attr in S.methods:
+                    callee = S.methods[n.func.attr]
+                    params = callee.params()[1:]
+                    ao = [origin_of(a, fi, org, n) for a in n.args]
+                    # a match object handed over together with its own offset
+                    match_vars = {o[1] for o in org.values()
+                                  if o and o[0] == 'match'}
+                    for i, a in enumerate(n.args):
+                        if isinstance(a, ast.Name) and i < len(params) and \
+                                a.id in match_vars:
+                            for j, oj in enumerate(ao):
+                                if j < len(params) and oj == ('match', a.id):
+                                    k = (callee.where, params[i], params[j])
+                                    pairs[k] = True if pairs.get(k) is None \
+                                        else pairs[k]
+                                elif j < len(params) and j != i and oj and \
+                                        oj[0] == 'match' and \
+                                        (callee.where, params[i],
+                                         params[j]) in pairs:
+                                    pairs[(callee.where, params[i],
+                                           params[j])] = False
+                    for i, oi in enumerate(ao):
                         for j, oj in enumerate(ao):
-                            if j < len(params) and oj == ('match', a.id):
-                                k = (callee.where, params[i], params[j])
-                                pairs[k] = True if pairs.get(k) is None \
-                                    else pairs[k]
-                            elif j < len(params) and j != i and oj and \
-                                    oj[0] == 'match' and \
-                                    (callee.where, params[i],
-                                     params[j]) in pairs:
-                                pairs[(callee.where, params[i],
-                                       params[j])] = False
-                for i, oi in enumerate(ao):
-                    for j, oj in enumerate(ao):
-                        if i == j or i >= len(params) or j >= len(params):
-                            continue
-                        if oi is None or oj is None:
-                            continue
-                        k = (callee.where, params[i], params[j])
-                        same = oi is not None and oi == oj and \
-                            oi[0] == 'match'
-                        if oi and oj and oi[0] == 'param' and \
-                                oj[0] == 'param' and pairs.get(
-                                    (fi.where, oi[1], oj[1])):
-                            same = True
-                        if pairs.get(k) is None:
-                            pairs[k] = same
-                        else:
-                            pairs[k] = pairs[k] and same
+                            if i == j or i >= len(params) or j >= len(params):
+                                continue
+                            if oi is None or oj is None:
+                                continue
+                            k = (callee.where, params[i], params[j])
+                            same = oi is not None and oi == oj and \
+                                oi[0] == 'match'
+                            if oi and oj and oi[0] == 'param' and \
+                                    oj[0] == 'param' and (
+                                        pairs.get((fi.where, oi[1], oj[1]))
+                                        or prev.get((fi.where, oi[1],
+                                                     oj[1]))):
+                                same = True
+                            if pairs.get(k) is None:
+                                pairs[k] = same
+                            else:
+                                pairs[k] = pairs[k] and same
+        if pairs == prev:
+            break
+        prev = pairs
     nsites = 0
     for fi in parser:
         org = origins(fi)
